@@ -13,7 +13,7 @@ import (
 )
 
 func init() {
-	core.Register(core.Check{ID: "C04", Level: "exploration", Run: func(c *core.Ctx) { runC04(c); historyPass(c, "C04"); reentrancyPass(c, "C04") }})
+	core.Register(core.Check{ID: "C04", Level: "exploration", Run: func(c *core.Ctx) { runC04(c); historyPass(c, "C04"); reentrancyPass(c, "C04"); arch386Pass(c, "C04") }})
 }
 
 func c04Class(s string) string {
@@ -230,6 +230,36 @@ func runC04(c *core.Ctx) {
 					}
 				}
 			}
+		}
+	}
+	// every OTHER byte value and every multi-byte code point inside the hrp, with the checksum that is correct for the raw
+	// bytes of that prefix (so only the character-class rule can reject the string): single bytes 0..32 and 127..255, all
+	// code points of the BMP, and the supplementary planes in steps of 251 (every low byte occurs)
+	hrpRune := func(piece string) {
+		for _, shape := range []string{"a%sb", "%sab", "ab%s", "%s"} {
+			h := fmt.Sprintf(shape, piece)
+			for _, data := range [][]byte{{}, {0, 31, 7}} {
+				low := rb.EncodeSymbols(rb.Lower(h), data)
+				if c04Judge(c, low, "hrp-non-ascii") {
+					nontriv++
+				}
+			}
+		}
+	}
+	for ch := 0; ch < 256; ch++ {
+		if ch < 33 || ch > 126 {
+			hrpRune(string([]byte{byte(ch)}))
+		}
+	}
+	for r := rune(0x80); r <= 0x10FFFF; r++ {
+		if r >= 0xD800 && r <= 0xDFFF {
+			continue
+		}
+		hrpRune(string(r))
+		if r >= 0x10000 {
+			r += 250
+		} else if !th && r >= 0x800 {
+			r += 2 // quick: every third code point above U+0800 (3 and 256 are coprime: every low byte occurs in every block)
 		}
 	}
 	c.Set("accepted_by_symbol_count", fmt.Sprint(validBySymLen))
